@@ -232,8 +232,33 @@ func (im *impl) setup(powers []int64) string {
 		im.keys = append(im.keys, e.k)
 		fmt.Fprintf(&sb, " %s:%d", vh.Hex(e.v.Address), e.v.VotingPower)
 	}
-	im.vals = types.NewValidatorSet(vals)
+	im.vals = buildSet(vals)
 	return sb.String()
+}
+
+// buildSet: the validator set with exactly this content. Every other set (by the sum of the powers)
+// is built the way the chain builds the set in force after a block with validator changes
+// (AdminOp.updateValidators): from an earlier set, by Add and Update - with no read in between.
+// A set is a function of its content (C16), so vote accounting must not see the difference.
+func buildSet(vals []*types.Validator) *types.ValidatorSet {
+	var sum int64
+	for _, v := range vals {
+		sum += v.VotingPower
+	}
+	if len(vals) < 2 || sum%2 == 0 {
+		return types.NewValidatorSet(vals)
+	}
+	last := len(vals) - 1
+	var earlier []*types.Validator
+	for _, v := range vals[:last] {
+		earlier = append(earlier, v.Copy())
+	}
+	earlier[0].VotingPower += 3
+	set := types.NewValidatorSet(earlier)
+	if !set.Add(vals[last].Copy()) || !set.Update(vals[0].Copy()) {
+		panic("buildSet: Add/Update refused")
+	}
+	return set
 }
 
 func main() {
